@@ -60,11 +60,16 @@ fn run_scenario(sc: &Value, t: &mut Tracer) {
 		ss = ss.loop_region(region(ls, le));
 	}
 	let (dec, stats) = ScriptDecoder::new(len as usize, vec![pk as usize, 1, (pk as usize).max(2) - 1], early as usize, 0);
+	let dec = dec.with_eos(1); // (a decode call past the end of the stream - which kira must never make - fails)
+	// a small frame ring makes the read window wrap around its physical end every few callbacks (0: the production size)
+	let ring = sc["ring"].as_u64().unwrap_or(0) as usize;
+	kira::verif::set_stream_ring_capacity(ring);
 	let mut sdata = StreamingSoundData::from_decoder(dec).with_settings(ss);
 	if !whole {
 		sdata = sdata.slice(region(lo, hi));
 	}
 	DEC_PUSHED.store(0, Ordering::SeqCst);
+	DEC_WAITS.store(0, Ordering::SeqCst);
 	let r = guarded(|| {
 		let ha: StaticSoundHandle = sa.manager.play(data).unwrap();
 		let hb: StreamingSoundHandle<String> = sb.manager.play(sdata).unwrap();
@@ -86,7 +91,13 @@ fn run_scenario(sc: &Value, t: &mut Tracer) {
 	let budget = if STALLS.load(Ordering::SeqCst) >= 3 { Duration::from_millis(60) } else { Duration::from_millis(2500) };
 	let t0 = Instant::now();
 	loop {
-		let done = if ls >= 0 { DEC_PUSHED.load(Ordering::SeqCst) >= 2000 } else { stats.dropped.load(Ordering::SeqCst) };
+		let done = if ring > 0 {
+			DEC_WAITS.load(Ordering::SeqCst) >= 1 || stats.dropped.load(Ordering::SeqCst)
+		} else if ls >= 0 {
+			DEC_PUSHED.load(Ordering::SeqCst) >= 2000
+		} else {
+			stats.dropped.load(Ordering::SeqCst)
+		};
 		if done {
 			break;
 		}
@@ -119,6 +130,20 @@ fn run_scenario(sc: &Value, t: &mut Tracer) {
 			"Callback" => {
 				let ra = sa.callback(NF);
 				let rb = sb.callback(NF);
+				if ring > 0 {
+					// the decoder refills the small ring before the next callback: it reports the ring full again, or ends
+					let w = DEC_WAITS.load(Ordering::SeqCst);
+					let t1 = Instant::now();
+					let budget = if STALLS.load(Ordering::SeqCst) >= 3 { Duration::from_millis(60) } else { Duration::from_millis(3000) };
+					while DEC_WAITS.load(Ordering::SeqCst) <= w + 1 && !stats.dropped.load(Ordering::SeqCst) {
+						if t1.elapsed() > budget {
+							STALLS.fetch_add(1, Ordering::SeqCst);
+							t.ev(json!({"a": "stall", "ms": budget.as_millis() as u64}));
+							break;
+						}
+						std::thread::sleep(Duration::from_micros(100));
+					}
+				}
 				let pos = |p: f64| (p * RATE as f64 * 256.0).round() as i64;
 				t.ev(json!({"a": "cb", "outA": bits(&ra.out), "outB": bits(&rb.out),
 					"stA": state_name(ha.state()), "stB": state_name(hb.state()),
